@@ -870,10 +870,17 @@ impl endpoint::Session for Session {
 
             let chunk_inds = consecutive_chunk_indices(&delivery_ids[..]);
 
-            let mut dispositions = Vec::with_capacity(chunk_inds.len());
+            let mut dispositions = Vec::with_capacity(chunk_inds.len() + 1);
             let mut prev_ind = 0;
-            for ind in chunk_inds {
+            // the indices only mark the breaks between runs: the last (or only) run ends at len()
+            for ind in chunk_inds
+                .into_iter()
+                .chain(std::iter::once(delivery_ids.len()))
+            {
                 let slice = &delivery_ids[prev_ind..ind];
+                if slice.is_empty() {
+                    continue;
+                }
                 let disposition = Disposition {
                     role: Role::Sender,
                     first: slice[0],
